@@ -195,12 +195,12 @@ func c01Adapter() *vc01.Adapter {
 			// TarsGo writes maps by ranging over a Go map: with two entries the order
 			// is swapped in roughly one encode out of eight; 256 tries make a miss
 			// (7/8)^256 ~ 1e-15
-			// (small frames; large ones, enumerated after the small ones, repeat 8 times)
+			// (small frames; large ones, enumerated after the small ones, repeat 4 times)
 			if c01MaxPairs(c) >= 2 {
 				if c.Class+c.Body+c.Hdr.Pairs*(c.Hdr.KLen+c.Hdr.VLen) <= 4096 {
 					return 256
 				}
-				return 8
+				return 4
 			}
 			return 1
 		},
@@ -367,7 +367,7 @@ func TestVerifC01TarsFidelity(t *testing.T) {
 	p.End(complete,
 		fmt.Sprintf("dirs %v x servant-name|result-desc length %v x context|status map shapes (none,1,2,300 pairs x key/value %v with pairwise distinct keys, +one 65536-byte value) x sBuffer length %v x id %v x newid(quick: complement; thorough: all) x {buffer left alone, overwritten}; + old id x new id over %v; + one-at-a-time sweep of iVersion,cPacketType,iMessageType,iTimeout|iRet over the same integers (in range), function-name length {0,1,255,256,65535}, the other map with {0,1,2} pairs; + zero/min/max frames; + 256 one-byte bodies",
 			c01Dirs, vref.Lens16, vref.PairLens, vref.ContentLens, vref.IDs32, c01Ints),
-		"every case = one canonical tars frame (vref writer == TarsGo writer, checked) followed by a second small frame in one read buffer: Decode, consumption == frame length, GetHeader/GetData/SetData(same)/SetRequestId(new)/Encode as xStream.endStream does — three times on the same frame object with the same data buffer object (first try + two retries; ids new, old, new), after which the data buffer must still read the same; bytes must equal the canonical encoding of the same packet with only iRequestId replaced; Encode is repeated 256 times (8 times for frames above 4 KiB) when a map has >= 2 entries (the codec re-encodes through Go maps); scribble=true overwrites the whole read buffer after Decode. Non-canonical (wider than necessary) encodings are not enumerated")
+		"every case = one canonical tars frame (vref writer == TarsGo writer, checked) followed by a second small frame in one read buffer: Decode, consumption == frame length, GetHeader/GetData/SetData(same)/SetRequestId(new)/Encode as xStream.endStream does — three times on the same frame object with the same data buffer object (first try + two retries; ids new, old, new), after which the data buffer must still read the same; bytes must equal the canonical encoding of the same packet with only iRequestId replaced; Encode is repeated 256 times (4 times for frames above 4 KiB) when a map has >= 2 entries (the codec re-encodes through Go maps); scribble=true overwrites the whole read buffer after Decode. Non-canonical (wider than necessary) encodings are not enumerated")
 }
 
 func TestVerifC01TarsModify(t *testing.T) {
